@@ -97,6 +97,14 @@ Theorem C10_capacity_bound : forall st s, reach st s ->
 Proof. exact capacity_bound. Qed.
 Print Assumptions C10_capacity_bound.
 
+(* shrink(reserve): the content is kept (C10_refines_fifo), at least [reserve] bytes are writable
+   afterwards and the prepend area is fresh *)
+Theorem C10_shrink_reserve : forall st s r st' o, reach st s ->
+  step st (Shrink r) = Ok (st', o) ->
+  r <= writableBytes (fst st') /\ prependableBytes (fst st') = kCheapPrepend.
+Proof. exact shrink_reserve. Qed.
+Print Assumptions C10_shrink_reserve.
+
 (* the constructor's assertions *)
 Theorem C10_constructor : forall n,
   readableBytes (new_buf n) = 0 /\ writableBytes (new_buf n) = n /\
